@@ -444,6 +444,21 @@ func (g *Gen) liveVotes(stake common.Uint168) []payload.DetailedVoteInfo {
 	return vs
 }
 
+// expiringVoters lists the voters with a live DPoS 2.0 vote that expires in the block of height h (lock time h-1):
+// the last block in which it can still be renewed.
+func (g *Gen) expiringVoters(h uint32) []int {
+	var out []int
+	for v := 0; v < g.NVoters; v++ {
+		for _, dv := range g.liveVotes(g.voter(v).Stake) {
+			if len(dv.Info) > 0 && dv.Info[0].LockTime+1 == h {
+				out = append(out, v)
+				break
+			}
+		}
+	}
+	return out
+}
+
 func candRenewVoting(g *Gen, t *rapid.T, spent map[string]bool) *cand {
 	k := g.K
 	h := k.Height + 1
@@ -460,6 +475,11 @@ func candRenewVoting(g *Gen, t *rapid.T, spent map[string]bool) *cand {
 		return nil
 	}
 	v := voters[rapid.IntRange(0, len(voters)-1).Draw(t, "renewvoter")]
+	lastChance := false
+	if ex := g.expiringVoters(h); len(ex) > 0 && rapid.IntRange(0, 3).Draw(t, "renewexpiring") != 0 {
+		// a vote in its last renewable block goes first
+		v, lastChance = ex[rapid.IntRange(0, len(ex)-1).Draw(t, "renewexpiringvoter")], true
+	}
 	if f := forcedIndex(g, 'v'); f >= 0 {
 		if len(g.liveVotes(g.voter(f).Stake)) == 0 {
 			return nil
@@ -468,7 +488,16 @@ func candRenewVoting(g *Gen, t *rapid.T, spent map[string]bool) *cand {
 	}
 	votes := g.liveVotes(g.voter(v).Stake)
 	n := rapid.IntRange(1, minInt(2, len(votes))).Draw(t, "nrenew")
-	perm := rapid.Permutation(votes).Draw(t, "renewed")[:n]
+	perm := rapid.Permutation(votes).Draw(t, "renewed")
+	if lastChance {
+		for i, dv := range perm {
+			if len(dv.Info) > 0 && dv.Info[0].LockTime+1 == h {
+				perm[0], perm[i] = perm[i], perm[0]
+				break
+			}
+		}
+	}
+	perm = perm[:n]
 	pl := &payload.Voting{}
 	desc := ""
 	for _, dv := range perm {
